@@ -7,21 +7,21 @@ import core
 from props import answers, rel
 
 THEOREMS = ["InfOCF.C09_systemP", "InfOCF.C09_supraclassical", "InfOCF.C09_RM_Z", "InfOCF.C09_RM_Lex",
-            "InfOCF.C09_consistency_preservation", "InfOCF.C09_direct", "InfOCF.C09_direct_P", "InfOCF.C09_direct_C", "InfOCF.C09_direct_ext", "InfOCF.C09_systemP_P", "InfOCF.C09_P_is_intersection", "InfOCF.C09_systemP_C", "InfOCF.C09_C_is_intersection", "InfOCF.interEnt_systemP", "InfOCF.wless_irrefl",
+            "InfOCF.C09_consistency_preservation", "InfOCF.C09_direct", "InfOCF.C09_direct_P", "InfOCF.C09_direct_C", "InfOCF.C09_direct_ext", "InfOCF.C09_systemP_P", "InfOCF.C09_P_is_intersection", "InfOCF.C09_systemP_C", "InfOCF.C09_C_is_intersection", "InfOCF.C09_systemP_C_full", "InfOCF.C09_C_is_intersection_full", "InfOCF.C09_Pext_is_intersection", "InfOCF.C09_systemP_Pext", "InfOCF.interEnt_systemP", "InfOCF.wless_irrefl",
             "InfOCF.wless_trans", "InfOCF.RM_modular", "InfOCF.prefEnt_iff_Ent", "InfOCF.REF", "InfOCF.LLE", "InfOCF.RW",
             "InfOCF.AND", "InfOCF.OR", "InfOCF.CUT", "InfOCF.CM", "InfOCF.exists_min_below"]
 RULE = ("random and tie-rich bases (both modes) x postulate instances built from the base's own antecedents/consequents and random "
         "formulas (premises and conclusion asked in one batch) x all operators and back-ends (c-inference strict only); "
         "non-trivial = all premises answered True (or, for RM, the negative premise False); distinct by (base, instance, operator)")
-ASSUMPTIONS = ["System P is proved for Z, W, lex in both modes (C09_systemP), for p-entailment in strict mode (C09_systemP_P, as an intersection of "
-               "preferential relations) and, for satisfiable antecedents, reflexivity / right weakening / And for skeptical c-inference "
-               "(C09_systemP_C); direct inference is proved for all operators in both modes (C09_direct, C09_direct_P, C09_direct_C, "
-               "C09_direct_ext); the remaining c-inference postulates and System P for p-entailment in extended mode are covered by the correspondence only"]
+ASSUMPTIONS = ["System P is proved for Z, W, lex in both modes (C09_systemP), for p-entailment in strict and in extended mode (C09_systemP_P, "
+               "C09_systemP_Pext) and for skeptical c-inference (C09_systemP_C_full), the latter three as intersections of preferential "
+               "relations; direct inference is proved for all operators in both modes (C09_direct, C09_direct_P, C09_direct_C, C09_direct_ext); "
+               "c-inference at the level of its specification specC (tied to the code by C05)"]
 
 RANKED = ("system-z", "lex_inf")
 
 
-def instances(rng, case_conds, n):
+def instances(rng, case_conds, n, hints=()):
     """returns (queries list of (cons, ante), instances list of dict(name, prem=[(qi, want)], concl=qi, guard=None|formula))"""
     qs = []
     idx = {}
@@ -39,6 +39,8 @@ def instances(rng, case_conds, n):
 
     def pick():
         r = rng.random()
+        if hints and r > 0.8:
+            return rng.choice(hints)
         if r < 0.45 and case_conds:
             c = rng.choice(case_conds)
             return c[1] if rng.random() < 0.6 else c[0]
@@ -60,6 +62,8 @@ def instances(rng, case_conds, n):
         inst.append({"name": "CUT", "prem": [(q(B, A), True), (q(C, ("&", A, B)), True)], "concl": q(C, A)})
         inst.append({"name": "RM", "prem": [(q(C, A), True), (q(("!", B), A), False)], "concl": q(C, ("&", A, B)), "ranked": True})
         inst.append({"name": "CP", "prem": [(q(("F",), A), True)], "concl": None, "guard": A})
+        # And with a contradictory pair: B and not-B both inferred from A makes A inconsistent
+        inst.append({"name": "AND", "prem": [(q(B, A), True), (q(("!", B), A), True)], "concl": q(("F",), A)})
     return qs, inst
 
 
@@ -153,7 +157,8 @@ def run(ctx):
         c = {k: v for k, v in c.items() if not k.startswith("_")}
         conds = [(b, a) for _, b, a in c["base"]]
         if not c.get("queries_fixed"):
-            qs, inst = instances(rng, conds, c["n"])
+            hints = [a for _, _b, a in c.get("queries", [])] + [b for _, b, _a in c.get("queries", [])]
+            qs, inst = instances(rng, conds, c["n"], hints)
             c["queries"] = [[i + 1, b, a] for i, (b, a) in enumerate(qs)]
         else:
             inst = c["inst"]
